@@ -17,13 +17,13 @@ import (
 type abortKind int
 
 const (
-	abInfeasible  abortKind = iota // assumption failed / path condition unsat
-	abViolationEnd                 // assertion failed on every continuation: path ends
-	abUnsupported                  // operation outside the engine
-	abUnwind                       // instruction / loop budget exhausted
-	abEngine                       // internal error of the engine
-	abDone                         // harness asked to stop the path (main returned)
-	abThreadExit                   // parked goroutine unwound at path end
+	abInfeasible   abortKind = iota // assumption failed / path condition unsat
+	abViolationEnd                  // assertion failed on every continuation: path ends
+	abUnsupported                   // operation outside the engine
+	abUnwind                        // instruction / loop budget exhausted
+	abEngine                        // internal error of the engine
+	abDone                          // harness asked to stop the path (main returned)
+	abThreadExit                    // parked goroutine unwound at path end
 )
 
 type pathAbort struct {
